@@ -70,25 +70,21 @@ where
             self.l3s.push_back(T::zero());
             return;
         } else {
+            // values of the previous step
             let last = self.l0s.len() - 1;
-            self.l0s.push_back(
-                (T::one() - self.gamma) * val + self.gamma * *self.l0s.get(last - 1).unwrap(),
-            );
-            self.l1s.push_back(
-                -self.gamma * *self.l0s.get(last).unwrap()
-                    + *self.l0s.get(last - 1).unwrap()
-                    + self.gamma * *self.l1s.get(last - 1).unwrap(),
-            );
-            self.l2s.push_back(
-                -self.gamma * *self.l1s.get(last).unwrap()
-                    + *self.l1s.get(last - 1).unwrap()
-                    + self.gamma * *self.l2s.get(last - 1).unwrap(),
-            );
-            self.l3s.push_back(
-                -self.gamma * *self.l2s.get(last).unwrap()
-                    + *self.l2s.get(last - 1).unwrap()
-                    + self.gamma * *self.l3s.get(last - 1).unwrap(),
-            );
+            let l0_1 = *self.l0s.get(last).unwrap();
+            let l1_1 = *self.l1s.get(last).unwrap();
+            let l2_1 = *self.l2s.get(last).unwrap();
+            let l3_1 = *self.l3s.get(last).unwrap();
+
+            let l0 = (T::one() - self.gamma) * val + self.gamma * l0_1;
+            let l1 = -self.gamma * l0 + l0_1 + self.gamma * l1_1;
+            let l2 = -self.gamma * l1 + l1_1 + self.gamma * l2_1;
+            let l3 = -self.gamma * l2 + l2_1 + self.gamma * l3_1;
+            self.l0s.push_back(l0);
+            self.l1s.push_back(l1);
+            self.l2s.push_back(l2);
+            self.l3s.push_back(l3);
         }
         let last = self.l0s.len() - 1;
 
